@@ -16,7 +16,14 @@ import (
 // Rng is splitmix64: every random choice of a run derives from one seed.
 type Rng struct{ s uint64 }
 
-func NewRng(seed uint64) *Rng { return &Rng{s: seed*0x9E3779B97F4A7C15 + 0x1234567} }
+// NewRng scrambles the seed first: the state advances by a constant, so seeds must not be multiples of it
+// (consecutive seeds would otherwise give the same stream shifted by one draw).
+func NewRng(seed uint64) *Rng {
+	z := seed + 0x1234567
+	z = (z ^ (z >> 30)) * 0xBF58476D1CE4E5B9
+	z = (z ^ (z >> 27)) * 0x94D049BB133111EB
+	return &Rng{s: z ^ (z >> 31)}
+}
 
 func (r *Rng) U64() uint64 {
 	r.s += 0x9E3779B97F4A7C15
